@@ -21,6 +21,97 @@ CONSTRUCTION = {
 }
 
 
+def cap_rule(chk, P, fnames, rid, floor):
+    """shared with C18: local arrays, VLAs and heap blocks that receive a data-dependent number of bytes are sized by an expression that covers it"""
+    from .. import capacity
+    chk.rule(rid, "a buffer written with an extent taken from a message's length byte (formatted dump, block copy) is allocated with a size expression that covers the extent")
+    n = 0
+    seen = set()
+    for (status, f, inst, obj, text, detail) in capacity.check(P, fnames):
+        if (status, inst.loc(), obj) in seen:
+            continue            # the same source line in several inlined copies of a helper
+        seen.add((status, inst.loc(), obj))
+        if status == "ok":
+            n += 1
+            chk.ok(rid, 1, detail)
+        elif status == "abstain":
+            chk.abstain(rid, text, inst.loc())
+        else:
+            n += 1
+            chk.violation(rid, f.name, obj, inst.loc(), text)
+    chk.floor(rid.lower().replace("-", "_") + "_sites", n, floor)
+
+
+def _queue_test(f, cond, depth=0):
+    """the condition is the result of g_queue_pop_head / g_queue_peek_head / g_queue_is_empty / g_queue_get_length (possibly compared with
+    NULL / 0, negated, or kept in a local): the call, else None"""
+    o = cond
+    for _ in range(8):
+        o = rules.strip_casts(f, o)
+        if o.get("k") != "inst":
+            return None
+        i = f.insts[o["id"]]
+        if i.op == "call":
+            return i if i.callee in ("g_queue_pop_head", "g_queue_pop_tail", "g_queue_peek_head", "g_queue_peek_tail", "g_queue_is_empty", "g_queue_get_length") else None
+        if i.op == "icmp" and (rules.const_of(f, i["b"]) == 0 or i["b"].get("k") == "null"):
+            o = i["a"]
+        elif i.op == "xor":
+            o = i["a"]
+        elif i.op == "load":
+            o2 = rules.resolve_local(f, o)
+            if o2 == o:
+                # a local assigned in the loop (`elem = pop(q)` as a statement of its own): the unique store of a call result
+                src = rules.load_source(f, o)
+                if src and src[0] == "alloca":
+                    st = [x for x in f.all_insts() if x.op == "store" and x["ptr"].get("k") == "inst" and x["ptr"]["id"] == src[1]]
+                    calls = [x for x in st if x["val"].get("k") == "inst" and f.insts[x["val"]["id"]].op == "call"]
+                    if len(calls) == 1 and all(x is calls[0] or x["val"].get("k") == "null" or rules.const_of(f, x["val"]) == 0 for x in st):
+                        o = calls[0]["val"]
+                        continue
+                return None
+            o = o2
+        else:
+            return None
+    return None
+
+
+def drain_rule(chk, P, fnames):
+    """DRAIN: a loop that is left when a queue is found empty never appends to that queue in its body, so every iteration shrinks it.
+    (A drain loop that puts an element back spins for ever while the receiver thread holds the table mutex.)"""
+    from .. import capacity
+    chk.rule("C12-DRAIN", "a loop that runs until a queue is empty does not append to that queue in its body (each iteration shrinks the queue, so the receiver cannot spin in it)")
+    n = 0
+    for name in sorted(fnames):
+        f = P.functions.get(name)
+        if f is None or not f.blocks:
+            continue
+        for h, body in f.loops().items():
+            tests = []
+            for b in body:
+                t = f.bmap[b].term
+                if t.op == "br" and "cond" in t.d and (t["t"] not in body or t["f"] not in body):
+                    qc = _queue_test(f, t["cond"])
+                    if qc is not None and qc.args:
+                        tests.append(qc)
+            for qc in tests:
+                qk = capacity._ptr_key(f, qc.args[0])
+                if qk is None:
+                    continue
+                n += 1
+                bad = None
+                for b in sorted(body):
+                    for i in f.bmap[b].insts:
+                        if i.op == "call" and i.callee in ("g_queue_push_tail", "g_queue_push_head", "g_queue_insert_sorted", "g_queue_push_nth") and i.args and capacity._ptr_key(f, i.args[0]) == qk:
+                            bad = i
+                if bad is not None:
+                    chk.violation("C12-DRAIN", f.name, "requeue@%s" % (rules.field_path_of_ptr(P, f, f.insts[qc.args[0]["id"]]["ptr"]) if qc.args[0].get("k") == "inst" and f.insts[qc.args[0]["id"]].op == "load" else "queue"), bad.loc(),
+                                  "the loop at line %d runs until the queue tested at line %d is empty, but line %d appends to that queue inside the loop: when the appended element is "
+                                  "not consumed the loop never ends and the calling thread (with the locks it holds) is stuck" % (f.bmap[h].insts[0].line, qc.line, bad.line))
+                else:
+                    chk.ok("C12-DRAIN", 1, {"function": f.name, "loop_head": f.bmap[h].insts[0].loc(), "queue_test": qc.loc()})
+    chk.floor("drain_loops", n, 2)
+
+
 def rx_functions(w):
     P = w.P
     roots = [n for n, f, i in P.thread_roots()]
@@ -361,6 +452,12 @@ def run(chk, w):
     for v in Eng.violations:
         if v["rule"] in ("SELF", "UNLOCK") and any("bidib_auto_receive" in x for x in v["chain"][:1]):
             chk.violation("C12-LOCK", v["function"], v["rule"].lower(), "%s:%d" % (v["file"], v["line"]), v["msg"], chain=v["chain"])
+
+    # ---- CAP: buffers written with an extent taken from the length byte
+    cap_rule(chk, P, rxf, "C12-CAP", 1)
+
+    # ---- DRAIN: loops that run until a queue is empty
+    drain_rule(chk, P, rxf)
 
     # ---- PROG: loops on the receive path
     chk.rule("C12-PROG", "every loop of the packet assembly/receive functions contains a read-callback call, or is a counted loop")
